@@ -37,8 +37,11 @@ func pick[T any](r rng, xs []T) T { return xs[r.IntN(len(xs))] }
 
 var (
 	qualVals = []string{"q0", "q1", "q2", "Q0", "Q1"}
-	kindVals = []string{"ka", "kb"}
-	funcVals = []string{"SimFnA", "SimFnB"}
+	// what a component may declare as its qualifier: any string, also one with blanks in it
+	// (which no requested set written in a tag can contain)
+	instQualVals = []string{"q0", "q1", "q2", "Q0", "Q1", "q0", "q1", "q2", "q0 q1", "q1 q2", "q2 Q0"}
+	kindVals     = []string{"ka", "kb"}
+	funcVals     = []string{"SimFnA", "SimFnB"}
 )
 
 // Knobs is the per-program swarm configuration.
@@ -339,6 +342,9 @@ func genGraph(r rng, seed uint64, id, family string, k Knobs) *sdl.Program {
 		if r.p(0.1) {
 			t.Logger = true
 			t.LogEmbed = embedChain(r, k.PEmbed)
+			if r.p(0.4) {
+				t.Logger2, t.Log2First = "LPw", r.p(0.6)
+			}
 		}
 		p.Types = append(p.Types, t)
 	}
@@ -367,7 +373,7 @@ func genGraph(r rng, seed uint64, id, family string, k Knobs) *sdl.Program {
 				unnamedUsed = true
 			}
 			if t.Qual {
-				inst.Qual = pick(r, qualVals)
+				inst.Qual = pick(r, instQualVals)
 			}
 			if t.HasKind {
 				inst.Kind = pick(r, kindVals)
@@ -444,7 +450,7 @@ func genGraph(r rng, seed uint64, id, family string, k Knobs) *sdl.Program {
 				alias++
 			}
 			if ta.Qual {
-				inst.Qual = pick(r, qualVals)
+				inst.Qual = pick(r, instQualVals)
 			}
 			p.Instances = append(p.Instances, inst)
 		}
@@ -646,6 +652,9 @@ func genPoint(r rng, p *sdl.Program, holder *sdl.Type, k Knobs, field string) *s
 			if pt.Quals[0] == pt.Quals[1] {
 				pt.Quals = pt.Quals[:1]
 			}
+		}
+		if r.p(0.15) {
+			pt.Quals = pick(r, [][]string{{"q0", "q1"}, {"q1", "q2"}, {"q2", "Q0"}})
 		}
 	}
 	return pt
